@@ -168,6 +168,12 @@ func encodeFixedLengthFormat(ctx context.Context, fp io.Writer, view *View, opti
 		}
 
 	} else {
+		// The writer lays out one field per delimiter position and leaves out the fields
+		// that have no position.
+		if len(options.DelimiterPositions) < view.FieldLen() {
+			return NewDataEncodingError(fmt.Sprintf("%d delimiter position(s) for %d field(s)", len(options.DelimiterPositions), view.FieldLen()))
+		}
+
 		w, err := fixedlen.NewWriter(fp, options.DelimiterPositions, options.LineBreak, options.Encoding)
 		if err != nil {
 			return NewDataEncodingError(err.Error())
